@@ -615,7 +615,14 @@ EFFECTS = [(r"\.make_uninit\(\)", "MakeUninit"), (r"mem::replace\(&mut \(\*rcbox
            (r"drop\(inners\)", "DropInners"), (r"\.borrow_mut\(\)", "BorrowMut"), (r"\.borrow\(\)", "Borrow"),
            (r"\.remove\(", "Remove"), (r"\.extract_if\(", "ExtractIf"), (r"\.is_uninit\(\)", "TestUninit"),
            (r"\.is_dead\(\)", "TestDead"), (r"\.weak\(\) == 0", "TestWeakZero"), (r"\bcontinue;", "Continue"),
-           (r"ptr::eq\(", "TestSelf"), (r"\.insert\(", "Insert"), (r"\.clear\(\)", "Clear")]
+           (r"ptr::eq\(", "TestSelf"), (r"\.insert\(", "Insert"), (r"\.clear\(\)", "Clear"),
+           (r"release_links\(", "ReleaseLinks"), (r"ptr::read\(", "ReadValue"), (r"Weak \{", "MakeWeakGuard"),
+           (r"mem::forget\(", "Forget"), (r"Rc::strong_count\(&?this\) == 1", "TestStrongIsOne"),
+           (r"Rc::strong_count\(&?this\) != 1", "TestStrongNotOne"), (r"Rc::weak_count\(&?this\) != 0", "TestWeakCountNotZero"),
+           (r"Rc::weak_count\(&?this\) == 0", "TestWeakCountZero"), (r"Self::new_uninit\(\)", "NewUninit"),
+           (r"\.clone\(\)", "CloneValue"), (r"copy_from_nonoverlapping\(", "CopyValue"),
+           (r"\*this = rc\.assume_init\(\)", "AssignDropOld"), (r"ptr::write\(this, rc\.assume_init\(\)\)", "OverwriteNoDrop"),
+           (r"\bOk\(val\)", "ReturnOk"), (r"\bErr\(this\)", "ReturnErr"), (r"\breturn;", "Return")]
 EFF_RE = re.compile("|".join("(?P<e%d>%s)" % (i, p) for i, (p, _) in enumerate(EFFECTS)))
 
 
@@ -644,6 +651,8 @@ def effect_tree(txt):
             elif re.match(r"(else )?if\b|match\b|else\b", header) or header.endswith("=>"):
                 if hm or inner:
                     out.append("Branch [%s] [%s]" % ("; ".join(hm), "; ".join(inner)))
+            elif re.search(r"= Weak$", header):
+                out += hm + ["E MakeWeakGuard"]       # a Weak built by hand: its Drop (dec_weak, maybe dealloc) runs at scope end
             else:
                 out += hm + inner          # closures, plain blocks, struct literals: no control flow of their own
             i = chunk_start = j
@@ -658,6 +667,12 @@ def translate_effects(repo):
     src = re.sub(r"//[^\n]*", "", open(path).read())
     text = ("(* GENERATED by tools/rs2v.py from %s -- do not edit. *)\n"
             "From Coq Require Import List. Import ListNotations.\nFrom Gen Require Import EffectsLang.\n\n" % path)
+    rc_src = re.sub(r"//[^\n]*", "", open(repo + "/src/rc.rs").read())
+    for name, hdr in (("try_unwrap", r"pub fn try_unwrap\(this: Self\) -> Result<T, Self> \{"),
+                      ("make_mut", r"pub fn make_mut\(this: &mut Self\) -> &mut T \{"),
+                      ("weak_drop", r"unsafe impl<#\[may_dangle\] T> Drop for Weak<T> \{\s*fn drop\(&mut self\) \{")):
+        body = _norm(_fn_body(rc_src, hdr))
+        text += "Definition g_%s : list enode :=\n  [ %s ].\n\n" % (name, ";\n    ".join(effect_tree(body)))
     for name, hdr in (("drop_unreachable", r"unsafe fn drop_unreachable<T>\(this: &mut Rc<T>\) \{"),
                       ("drop_unreachable_with_adoptions", r"unsafe fn drop_unreachable_with_adoptions<T>\(this: &mut Rc<T>\) \{"),
                       ("drop_cycle", r"unsafe fn drop_cycle<T>\(cycle: HashMap<Link<T>, usize>\) \{"),
